@@ -14,7 +14,7 @@ package c09
 // In is the generated input of one case. Object lists are run-length encoded as
 // [count, pad] pairs: `count` objects whose padding annotation is `pad` bytes long.
 type In struct {
-	Kind    string   `json:"kind"`     // "sync"
+	Kind    string   `json:"kind"`     // "sync" (one external plugin) | "pre" (pre-installed plugins)
 	Pods    [][2]int `json:"pods"`     // runs of [count, pad]
 	Ctrs    [][2]int `json:"ctrs"`     // runs of [count, pad]
 	Handler string   `json:"handler"`  // "record" | "none" | "error"
@@ -22,8 +22,29 @@ type In struct {
 	Slack   int      `json:"slack"`    // spare capacity of the slices the runtime's SyncFn passes (0 = cap == len)
 	Limit   int      `json:"limit"`    // ttrpc's maximum message length
 	MinObjs int      `json:"min_objs"` // documented minimum objects per message of the sender
+	Plugins []PluginIn `json:"plugins"` // kind "pre": the pre-installed plugins (launched by Adaptation.Start)
 	Stream  string   `json:"stream"`   // which generator stream produced the case
 	Note    string   `json:"note"`
+}
+
+// PluginIn describes one pre-installed plugin of a "pre" case.
+type PluginIn struct {
+	Idx     string `json:"idx"`     // two digits
+	Name    string `json:"name"`
+	Handler string `json:"handler"` // "record" | "none" | "error"
+	Updates int    `json:"updates"`
+}
+
+// PluginObs is what one pre-installed plugin process recorded (written to a file after every
+// event, because Adaptation kills a plugin whose synchronization failed with SIGKILL).
+type PluginObs struct {
+	Name      string     `json:"name"`
+	Started   bool       `json:"started"` // stub.Start returned nil (registered and configured)
+	Plan      []ChunkObs `json:"plan"`
+	Calls     []CallObs  `json:"calls"`
+	Returned  []int      `json:"returned"`
+	Activated bool       `json:"activated"`
+	Runaway   bool       `json:"runaway"`
 }
 
 // Runs is a run-length encoded list of indices: [start, len] pairs of consecutive indices.
@@ -72,6 +93,7 @@ type Obs struct {
 	Alive     bool       `json:"alive"`           // the runtime process survived the case
 	Runaway   bool       `json:"runaway"`         // the harness cut the exchange off: more chunks than objects
 	SyncCalls int        `json:"sync_calls"`      // times the runtime's SyncFn was invoked
+	Plugins   []PluginObs `json:"plugins"`        // kind "pre"
 	Detail    string     `json:"detail"`          // free text for humans (never compared)
 }
 
@@ -89,6 +111,7 @@ const (
 	ttrpcLimit  = 4 << 20
 	minObjs     = 8
 	workerEnv   = "VERIFH_C09_WORKER"
+	pluginEnv   = "VERIFH_C09_PLUGIN"
 	timeoutEnv  = "VERIFH_C09_REQ_TIMEOUT_MS"
 	maxObjBytes = ttrpcLimit - 512 // "just under the limit": the whole message still fits
 )
